@@ -13,7 +13,7 @@ META = {
     'assumptions': ['field widths as in DESIGN.md B.1 (independent layout parser)'],
     'floors': {'string_tables': 30, 'fields': 40, 'accepted_and_verified': 500, 'rejected_with_diagnostic': 150, 'beyond_boundary_values': 300, 'count_cases': 2, 'readback_ok': 400},
 }
-SIZES = {'quick': 2500, 'thorough': 60000}
+SIZES = {'quick': 5000, 'thorough': 60000}
 ANM_GAMES = ['th06', 'th07', 'th08', 'th095', 'th10', 'th11', 'th12', 'th13', 'th14', 'th17', 'th18']
 STD_GAMES = ['th06', 'th07', 'th08', 'th09', 'th095', 'th10', 'th12', 'th17']
 MSG_GAMES = ['th06', 'th07', 'th08', 'th09', 'th10', 'th11', 'th12', 'th14', 'th17']
